@@ -62,6 +62,11 @@ func c16GN(kind int, where string) *refcfg.GeneralName {
 		return &refcfg.GeneralName{Type: "url", Name: "http://" + where + ".example.org/a%20b/%7Euser?x=%41&y=1#frag"}
 	case 10:
 		return &refcfg.GeneralName{Type: "ip", Name: "0.0.0.0"}
+	// octets written with leading zeros are decimal numbers all the same
+	case 11:
+		return &refcfg.GeneralName{Type: "ip", Name: "010.020.001.077"}
+	case 12:
+		return &refcfg.GeneralName{Type: "ip", Name: "192.168.08.009"}
 	}
 	return nil
 }
@@ -170,8 +175,8 @@ func c16Enumerate(tier string, yield func(any)) {
 		}
 	}
 	// authority names in spellings that a normalising library would rewrite (and the all-zero address)
-	for top := 0; top <= 10; top++ {
-		for aa := 0; aa <= 10; aa++ {
+	for top := 0; top <= 12; top++ {
+		for aa := 0; aa <= 12; aa++ {
 			if top < 5 && aa < 5 {
 				continue
 			}
